@@ -3,9 +3,12 @@ package checks
 import (
 	"bytes"
 	"errors"
+	"hash/crc32"
+	"reflect"
 
 	"verif/internal/gen"
 	"verif/internal/ref"
+	"verif/internal/schema"
 	"verif/internal/val"
 )
 
@@ -47,7 +50,7 @@ func firstDiff(a, b []byte, toks []ref.Token) map[string]any {
 
 func c02(e *Env) {
 	r := e.R
-	r.Rule("per type T, case i is a pure function of (seed,'C02',T,i): even cases canonical, odd cases arbitrary (over-long / pad-terminated / all-pad text, nil nested parts, nil or mismatched bodies, unregistered keys); decode direction uses the reference encoder's images and token-by-token wire images built from the schema (arbitrary pad placement, garbage or correct computed fields). distinct_nontrivial = distinct structural hashes of non-zero values + distinct non-empty wire images")
+	r.Rule("per type T, case i is a pure function of (seed,'C02',T,i): even cases canonical, odd cases arbitrary (over-long / pad-terminated / all-pad text, nil nested parts, nil or mismatched bodies, unregistered keys); decode direction uses the reference encoder's images and token-by-token wire images built from the schema (arbitrary pad placement, garbage or correct computed fields). finally, for one fixed-text field per type, pairs of equal-length texts that collide under CRC-32/IEEE or FNV-1a-32 (found by birthday search) are decoded one after the other in the same process. distinct_nontrivial = distinct structural hashes of non-zero values + distinct non-empty wire images")
 	r.Explain("Oracle: an independent interpreter (internal/ref, own integer rendering, padding, checksums; shares no code with /repo/codec) of the schema pinned at the baseline commit (/verif/schema/*.json, one byte order per module, no per-field override). Encode: lib bytes == ref bytes, and lib errors exactly when ref has no rendering (unregistered key with a body the encoder must fill). Decode: same accept/reject, same number of bytes consumed, lib message ≡ ref message. A change made consistently to Encode and Decode (width, field order, byte order, pad byte/side, prefix width, key→type) disagrees with ref although every repository test still passes.")
 	r.Assume("the schema snapshot is faithful to the pinned commit (extracted from Encode bodies, cross-checked against Decode bodies; see schema/PROVENANCE.md); a deviation from the real exchange .pdsl that was already self-consistent at the pinned commit is inherited", "values above a prefix limit are C18's business and are skipped here")
 	types := e.Types()
@@ -162,10 +165,108 @@ func c02(e *Env) {
 		programs++
 		feats.mu.Unlock()
 	})
+	// ---- adversarial pairs for "compare a hash instead of the bytes" shortcuts (intern tables, caches):
+	// texts of equal length that collide under CRC-32/IEEE or FNV-1a-32, decoded one after the other in
+	// the same process through the same fixed-text field.
+	if e.Only == "" {
+		pairs := collidingPairs(e.Seed)
+		var adv, advTypes int64
+		for _, t := range types {
+			var ff *schema.Field
+			for i := range t.Fields {
+				if t.Fields[i].Kind == "fixstr" && t.Fields[i].N >= 8 && !t.Fields[i].Left && t.Fields[i].Pad != 'A' {
+					ff = &t.Fields[i]
+					break
+				}
+			}
+			if ff == nil {
+				continue
+			}
+			isKey := false
+			for _, f := range t.Fields {
+				if f.Kind == "union" && f.Key == ff.Name {
+					isKey = true
+				}
+			}
+			if isKey {
+				continue
+			}
+			advTypes++
+			base := e.Gen(&gen.Opts{}, t.QName, "collision").Value(t)
+			for pi, pr := range pairs {
+				for k, txt := range []string{pr[0], pr[1], pr[0]} {
+					v := val.Clone(base)
+					reflect.ValueOf(v).Elem().FieldByName(ff.Name).SetString(txt)
+					img, err := e.C.Encode(t, v)
+					if err != nil {
+						continue
+					}
+					d := e.C.New[t.QName]()
+					derr, p := LibDecode(d, bytes.NewBuffer(append([]byte(nil), img...)))
+					adv++
+					got := ""
+					if derr == nil && p == nil {
+						got = reflect.ValueOf(d).Elem().FieldByName(ff.Name).String()
+					}
+					if got != txt {
+						r.Violate("C02/decode-value-after-colliding-text/"+t.QName, "C02/decode-value-after-colliding-text/"+t.QName, map[string]any{"type": t.QName, "field": ff.Name, "pair": pi, "step": k, "wire_text": txt, "decoded_text": got, "decoded_before_in_this_process": []string{pr[0], pr[1]}, "note": "the two texts have equal length and equal " + pr[2]})
+						break
+					}
+				}
+			}
+		}
+		r.Evals(adv)
+		r.Set("hash_collision_adversary", map[string]any{"colliding_pairs": len(pairs), "types_with_a_suitable_text_field": advTypes, "decodes": adv})
+	}
 	r.Set("programs", programs)
 	r.Set("observations", feats.m)
 	r.Set("protocol_versions", map[string]string{"sse": "sse_bin_v0.57", "szse": "szse_bin_v1.29", "bjse": "bse_trade_bin_v0.9", "risk": "risk_v0.1.0", "sample": "sample"})
 	_ = gen.DefaultLens
+}
+
+// collidingPairs finds, by birthday search over 8-character texts, pairs that collide under CRC-32/IEEE
+// and pairs that collide under FNV-1a-32.
+func collidingPairs(seed int64) [][3]string {
+	var out [][3]string
+	rng := gen.NewRng(seed, "C02", "collisions")
+	const alpha = "ABCDEFGHIJKLMNOPQRSTUVWXYZ0123456789"
+	n := 1 << 19
+	texts := make([]string, n)
+	for i := range texts {
+		b := make([]byte, 8)
+		x := rng.U64()
+		for k := range b {
+			b[k] = alpha[x%36]
+			x /= 36
+		}
+		texts[i] = string(b)
+	}
+	for _, h := range []struct {
+		name string
+		f    func(string) uint32
+	}{{"CRC-32/IEEE", func(s string) uint32 { return crc32.ChecksumIEEE([]byte(s)) }}, {"FNV-1a-32", func(s string) uint32 {
+		x := uint32(2166136261)
+		for i := 0; i < len(s); i++ {
+			x = (x ^ uint32(s[i])) * 16777619
+		}
+		return x
+	}}} {
+		seen := make(map[uint32]int32, n)
+		found := 0
+		for i, s := range texts {
+			k := h.f(s)
+			if j, ok := seen[k]; ok && texts[j] != s {
+				out = append(out, [3]string{texts[j], s, h.name})
+				found++
+				if found >= 6 {
+					break
+				}
+			} else {
+				seen[k] = int32(i)
+			}
+		}
+	}
+	return out
 }
 
 func errStr(err error) string {
